@@ -8,13 +8,13 @@
      columns (the last column is the right-hand side of an augmented system);
    - defines a computable guard [pge_no_skip] under which the routine that exists computes
      the same thing as the repaired one, and transfers the specification.               *)
-From SE Require Import C24.DenseModel C24.DenseBase C24.DenseSpec C24.DenseOps C24.DenseGJ C24.DenseGJ2.
+From SE Require Import C24.DenseLegacy C24.DenseModel C24.DenseBase C24.DenseSpec C24.DenseOps C24.DenseGJ C24.DenseGJ2.
 From Coq Require Import Lia ZifyBool ZifyNat ZifyN.
 Local Open Scope N_scope.
 Local Open Scope res_scope.
 
 (* ------------------------------------------------------------------ the repaired routine *)
-(* pivoted_gaussian_elimination with `index` as pivot row:
+(* pivoted_gaussian_elimination_v0 with `index` as pivot row:
      for (j = index + 1; j < row; j++) {
        for (k = i + 1; k < col; k++)
          B[j*col+k] = sub(B[j*col+k], mul(B[j*col+i], B[index*col+k]));
@@ -83,7 +83,7 @@ Lemma pge_fixed_unfold A B pl0 :
 Proof. reflexivity. Qed.
 
 Lemma pge_unfold A B pl0 :
-  pivoted_gaussian_elimination A B pl0 =
+  pivoted_gaussian_elimination_v0 A B pl0 =
   if dcol A =? 0 then ErrExn EXN_EMPTY else
   do st <- for_range 0 (dcol A - 1) (ge_body false (drow A) (dcol A)) (dm A, pl0, 0);
   let '(m, pl, _) := st in Ok (setm B m, pl).
@@ -430,7 +430,7 @@ Proof.
     exists m, pl, M, pc. split; [exact E|]. split; [assumption|]. split; assumption.
 Qed.
 
-(* the repaired pivoted_gaussian_elimination on an r x c matrix of rationals (c > 0): total,
+(* the repaired pivoted_gaussian_elimination_v0 on an r x c matrix of rationals (c > 0): total,
    the result is a good r x c matrix, row equivalent to A, in row echelon form with leading
    ones on the first c - 1 columns *)
 Theorem pge_fixed_spec A B r c :
@@ -507,7 +507,7 @@ Definition pge_no_skip (A : dmat) : bool :=
 (* under the guard the routine that exists and the repaired one are the same computation *)
 Theorem pge_guarded A B :
   pge_no_skip A = true ->
-  pivoted_gaussian_elimination A B [] = pivoted_gaussian_elimination_fixed A B [].
+  pivoted_gaussian_elimination_v0 A B [] = pivoted_gaussian_elimination_fixed A B [].
 Proof.
   unfold pge_no_skip. intros HG. rewrite pge_unfold, pge_fixed_unfold.
   destruct (dcol A =? 0); [reflexivity|].
@@ -522,7 +522,7 @@ Qed.
 
 Corollary pge_spec_guarded A B r c :
   good A r c -> 0 < c -> drow B = r -> dcol B = c -> pge_no_skip A = true ->
-  exists B' pl, pivoted_gaussian_elimination A B [] = Ok (B', pl) /\ good B' r c /\
+  exists B' pl, pivoted_gaussian_elimination_v0 A B [] = Ok (B', pl) /\ good B' r c /\
     row_equiv r c (fm_of A) (fm_of B') /\ exists pc, is_ref r (c - 1) (fm_of B') pc.
 Proof.
   intros HG Hc0 Hr Hc Hns. rewrite (pge_guarded A B Hns). now apply pge_fixed_spec.
@@ -552,6 +552,18 @@ Definition cell_is_zero (res : res (dmat * list (N * N))) (i j : N) : option boo
 
 Example pge_skip_witness :
   let A := zmat 3 4 [1; 2; 3; 4;  2; 4; 7; 9;  3; 6; 8; 1]%Z in
-  cell_is_zero (pivoted_gaussian_elimination A (mzero 3 4) []) 2 2 = Some false /\
+  cell_is_zero (pivoted_gaussian_elimination_v0 A (mzero 3 4) []) 2 2 = Some false /\
   cell_is_zero (pivoted_gaussian_elimination_fixed A (mzero 3 4) []) 2 2 = Some true.
 Proof. vm_compute. split; reflexivity. Qed.
+
+(* ------------------------------------------------------------------ the model after the repair *)
+(* since the repair e64308a the model's pivoted_gaussian_elimination IS the repaired text *)
+Lemma pge_model_is_fixed A B pl0 :
+  pivoted_gaussian_elimination A B pl0 = pivoted_gaussian_elimination_fixed A B pl0.
+Proof. reflexivity. Qed.
+
+Theorem pge_spec A B r c :
+  good A r c -> 0 < c -> drow B = r -> dcol B = c ->
+  exists B' pl, pivoted_gaussian_elimination A B [] = Ok (B', pl) /\ good B' r c /\
+    row_equiv r c (fm_of A) (fm_of B') /\ exists pc, is_ref r (c - 1) (fm_of B') pc.
+Proof. intros. rewrite pge_model_is_fixed. now apply pge_fixed_spec. Qed.
